@@ -59,7 +59,7 @@ def run_entry(profile, features, entry, repo=None):
             st.meta["case"] = label
             I.push_call(st, key, [driver.arg_id(st, x), driver.arg_id(st, n), driver.arena_ref()], None, None)
             I.explore([st], lambda t, e=entry: records.append(binary_record(I, e, t)))
-    elif entry in ("detach",):
+    elif entry in ("detach", "remove", "remove_subtree"):
         for live in (True,):
             st = State()
             x = st.new_node(live, "arg:self")
@@ -67,6 +67,20 @@ def run_entry(profile, features, entry, repo=None):
             st.meta["case"] = "x live"
             I.push_call(st, NID + entry, [driver.arg_id(st, x), driver.arena_ref()], None, None)
             I.explore([st], lambda t, e=entry: records.append(unary_record(I, e, t)))
+    elif entry == "append_value":
+        for live in (True, False):
+            st = State()
+            x = st.new_node(live, "arg:self")
+            st.meta["args"] = (x,)
+            st.meta["case"] = "x live" if live else "x removed"
+            I.push_call(st, NID + entry, [driver.arg_id(st, x), VOpaque("payload", "new"), driver.arena_ref()], None, None)
+            I.explore([st], lambda t, e=entry: records.append(unary_record(I, e, t)))
+    elif entry == "new_node":
+        st = State()
+        st.meta["args"] = ()
+        st.meta["case"] = "any arena"
+        I.push_call(st, "crate::arena::Arena<T>::new_node", [driver.arena_ref(), VOpaque("payload", "new")], None, None)
+        I.explore([st], lambda t, e=entry: records.append(alloc_record(I, e, t)))
     else:
         raise ValueError("unknown entry " + entry)
     stats = {"entry": entry, "profile": profile, "terminals": len(records), "blocks": I.blocks_run, "statements": I.stmts_run,
@@ -136,6 +150,18 @@ def unary_record(I, entry, t):
         return rec
     rec["class"] = "possible" if st.nodes[x].live0 else "removed"
     rec["shape"] = shape_of(view, st, x, None)
+    if entry == "append_value" and st.nodes[x].live0 and t.kind == "return":
+        k = st.node_of_id(t.value)
+        m = spec.Model(view)
+        if k is None:
+            rec["model_diff"] = [("returned id", "a node of the arena", repr(t.value))]
+        else:
+            m.place(k, x, m.get(x, "last_child"), None)
+            for f in ("first_child", "last_child"):
+                m.set(k, f, None)
+            rec["model_diff"] = [(a, str(b), str(c)) for a, b, c in m.diff()]
+            rec["model_touched"] = len(m.M)
+            rec["returned"] = k
     if entry == "detach" and st.nodes[x].live0:
         m = spec.Model(view)
         m.op("detach", x)
@@ -144,9 +170,30 @@ def unary_record(I, entry, t):
     return rec
 
 
+def alloc_record(I, entry, t):
+    rec, view = base_record(I, entry, t)
+    rec["op"] = entry
+    rec["class"] = "possible"
+    if t.kind != "undecided":
+        rec["shape"] = shape_of(view, t.st, None, None)
+        rec["freelist"] = freelist_shape(t.st)
+        if t.kind == "return":
+            k = t.st.node_of_id(t.value)
+            rec["returned"] = k
+            rec["returned_links"] = [view.post(k, f) for f in LINKS] if k else None
+    return rec
+
+
+def freelist_shape(st):
+    out = {"first0": repr(st.arena_h0.get("first_free_slot")), "last0": repr(st.arena_h0.get("last_free_slot")),
+           "first": repr(st.arena_cur.get("first_free_slot")), "last": repr(st.arena_cur.get("last_free_slot")),
+           "len": repr(st.len), "members": sorted(st.meta.get("freelist", ()))}
+    return out
+
+
 def shape_of(view, st, x, n):
     """Canonical description of the materialised pre-state neighbourhood (for de-duplication and reports)."""
-    names = {x: "x"}
+    names = {x: "x"} if x is not None else {}
     if n is not None and n != x:
         names[n] = "n"
     parts = []
